@@ -294,6 +294,33 @@ fn on_step<K: Kit>(tier: &str, idx: usize, st: &mut PrmStep<K>, rep: &mut Report
     if let Err((k, w)) = check_query::<K>(st.rig, post, &start, &goal, &res, rep) {
         fail!(k, w, "query-P1");
     }
+    // ---- a query cut short by its own budget (zero, one deadline check): whatever it answers, the roadmap
+    // is as it was, and what follows is answered from that roadmap
+    let budgets: Vec<std::time::Duration> = if tier != "quick" {
+        vec![std::time::Duration::ZERO, crate::drv::iters(1), crate::drv::iters(2)]
+    } else if (st.hist.len() + st.letter as usize) % 2 == 0 {
+        vec![std::time::Duration::ZERO]
+    } else {
+        vec![]
+    };
+    for budget in budgets {
+        oxmpl::verif::clock_reset(1_000_000);
+        let cut = guarded(|| st.rig.drv.solve(budget));
+        rep.count("budgeted_queries", 1);
+        match cut {
+            Err(_) => fail!("query-panicked", "solve unwound under a short time budget".into(), "query-budget"),
+            Ok(r) => {
+                if matches!(r, Err(PlanningError::Timeout)) {
+                    rep.count("budgeted_queries_timed_out", 1);
+                } else if let Err((k, w)) = check_query::<K>(st.rig, post, &start, &goal, &r, rep) {
+                    fail!(k, w, "query-budget");
+                }
+            }
+        }
+        if st.rig.snapshot().key() != st.post.key() {
+            fail!("query-changed-roadmap", "a query that ran out of time modified the roadmap".into(), "query-budget");
+        }
+    }
     // ---- repeated construction: snapshot unchanged, no samples drawn
     if !post.is_empty() {
         let calls0 = st.rig.space.calls.get();
@@ -698,7 +725,7 @@ pub fn run(tier: &'static str) -> i32 {
             "the roadmap is built by one construct_roadmap call whose logical-clock budget admits exactly the scripted samples".into(),
             "motions in the grey zone (an invalid stretch shorter than L) may be accepted or rejected".into(),
         ],
-        must_be_positive: vec!["milestones_added", "invalid_samples_discarded", "edges_added", "pairs_not_linked", "queries_ok", "queries_no_solution", "multi_hop_paths", "reconstruct_checks", "replaced_problem_queries", "interrupted_constructions", "interrupted_constructions_that_reported_an_error", "dense_roadmaps", "dense_queries", "problem_address_reused", "other_arc_space_queries"],
+        must_be_positive: vec!["milestones_added", "invalid_samples_discarded", "edges_added", "pairs_not_linked", "queries_ok", "queries_no_solution", "multi_hop_paths", "reconstruct_checks", "replaced_problem_queries", "interrupted_constructions", "interrupted_constructions_that_reported_an_error", "dense_roadmaps", "dense_queries", "problem_address_reused", "other_arc_space_queries", "budgeted_queries_timed_out"],
     };
     finish(&meta, rep, t0)
 }
